@@ -139,7 +139,6 @@ double DownhillSimplexMethod::doStep()
           nbEval_++;
         }
       }
-      nbEval_ += static_cast<unsigned int>(nDim);
       pSum_ = getPSum();
     }
   }
